@@ -123,7 +123,7 @@ def predicate_classes(prog: Program, name: str):
         for tm in terms:
             for c in T.calls_in(tm):
                 n = T.refname(c[1])
-                if n in ("builtins.issubclass", f"{C.INSP}._safe_issubclass") and len(c[2]) == 2:
+                if (n == "builtins.issubclass" or n in prog.safe_subclass_helpers()) and len(c[2]) == 2:
                     if n == "builtins.issubclass":
                         raising = True
                     subj, cl = c[2]
